@@ -770,6 +770,13 @@ pub struct AckModel {
     pub delivered_idx: BTreeSet<(usize, u16)>,
     /// Acknowledgements a client produced for an index it was never handed in this session.
     pub spurious_acks: Vec<(usize, u16)>,
+    /// Mutate messages (ids) handed to a client since its last frame.
+    pub received_unacked: BTreeMap<usize, Vec<u32>>,
+    /// Acknowledgement message (id of the client-to-server message) -> the mutate messages it
+    /// answers. Acknowledgements are credited by identity, not by index: an index names a
+    /// message only as long as the server does not hand it out again.
+    pub ack_ids: BTreeMap<u32, Vec<u32>>,
+    pub pending_ack_ids: Vec<(usize, u32)>,
 }
 
 pub fn parse_mutate(track: bool, client: usize, w: &WireRec) -> Option<MutMsgInfo> {
@@ -1198,6 +1205,8 @@ impl Sim {
             self.vis_rec.remove(&k);
         }
         self.acks.in_flight.retain(|k, _| k.0 != c);
+        self.acks.received_unacked.remove(&c);
+        self.acks.pending_ack_ids.retain(|k| k.0 != c);
         self.acks.pending_acks.retain(|k| k.0 != c);
         self.acks.acked_tick.retain(|k, _| k.0 != c);
         self.acks.all.retain(|m| m.client != c);
@@ -1828,12 +1837,16 @@ impl Sim {
             if !self.acks.format_unknown && !self.acks.delivered_idx.contains(&(c, idx)) {
                 self.acks.spurious_acks.push((c, idx));
             }
-            if let Some(info) = self.acks.in_flight.remove(&(c, idx)) {
-                let etags: BTreeSet<u8> = info.payloads.iter().map(|p| p.0).collect();
-                for e in etags {
-                    let t = self.acks.acked_tick.entry((c, e)).or_insert(0);
-                    *t = (*t).max(info.tick);
-                }
+        }
+        for (c, id) in std::mem::take(&mut self.acks.pending_ack_ids) {
+            let Some(info) = self.acks.all.iter().find(|i| i.id == id && i.client == c).cloned() else { continue };
+            if self.acks.in_flight.get(&(c, info.index)).is_some_and(|i| i.id == id) {
+                self.acks.in_flight.remove(&(c, info.index));
+            }
+            let etags: BTreeSet<u8> = info.payloads.iter().map(|p| p.0).collect();
+            for e in etags {
+                let t = self.acks.acked_tick.entry((c, e)).or_insert(0);
+                *t = (*t).max(info.tick);
             }
         }
         // a connection closed after the send systems: whatever is still queued for it is orphaned
@@ -1912,6 +1925,7 @@ impl Sim {
         }
         if ch == 1 {
             for m in &msgs {
+                self.acks.received_unacked.entry(c).or_default().push(m.id);
                 self.acks.delivered.insert((c, m.id));
                 if let Some(info) = self.acks.all.iter().find(|i| i.id == m.id) {
                     self.acks.delivered_idx.insert((c, info.index));
@@ -2107,11 +2121,17 @@ impl Sim {
         };
         if ch == 0 {
             for m in &msgs {
+                let mut named = BTreeSet::new();
                 for pair in m.bytes.chunks(2) {
                     if pair.len() == 2 {
-                        self.acks
-                            .pending_acks
-                            .push((c, u16::from_le_bytes([pair[0], pair[1]])));
+                        let idx = u16::from_le_bytes([pair[0], pair[1]]);
+                        named.insert(idx);
+                        self.acks.pending_acks.push((c, idx));
+                    }
+                }
+                for id in self.acks.ack_ids.remove(&m.id).unwrap_or_default() {
+                    if self.acks.all.iter().any(|i| i.id == id && named.contains(&i.index)) {
+                        self.acks.pending_ack_ids.push((c, id));
                     }
                 }
             }
@@ -2145,9 +2165,14 @@ impl Sim {
             .resource_mut::<RepliconClient>()
             .drain_sent()
             .collect();
+        let answered = self.acks.received_unacked.remove(&c).unwrap_or_default();
         for (ch, bytes) in sent {
             let id = self.next_msg_id;
             self.next_msg_id += 1;
+            if ch == 0 {
+                // (which of them this message answers is decided by the indices it names)
+                self.acks.ack_ids.insert(id, answered.clone());
+            }
             (c, ch, &bytes[..], 1u8).hash(&mut self.trace);
             self.clients[c].c2s[ch].push_back(Msg {
                 id,
